@@ -49,6 +49,10 @@ def resolve(F, node, st, e, depth):
         outs = [resolve(F, node, st, c, depth + 1) for c in cands]
         if outs and all(o == outs[0] for o in outs):
             return outs[0]
+        if outs and independent_choice(F, node, st, e.id):
+            # which definition holds depends only on the pump's parameters (the kind of message asked for ...), which the
+            # typestate neither tracks nor constrains: each of them is a run of the program - all must attach the right bytes
+            return [("alt", tuple(tuple(o) for o in outs))]
         raise AnalysisError(f"C13: cannot resolve `{e.id}` attached at line {node.lineno} "
                             f"({len(cands)} definitions feasible in state {st})")
     if isinstance(e, ast.Constant) and e.value in (b"", None):
@@ -184,6 +188,30 @@ def stale(F, dnode, node, var):
     return False
 
 
+def independent_choice(F, node, st, name):
+    """the feasible definitions of `name` sit under if-tests whose undecided atoms read nothing but parameters of the pump"""
+    params = {a.arg for a in F.roles.pump.args.args + F.roles.pump.args.kwonlyargs}
+    assigned = {n.id for n in ast.walk(F.roles.pump) if isinstance(n, ast.Name) and isinstance(n.ctx, ast.Store)}
+    for d in F.rd.reaching(node, name):
+        child, p = d.ast, getattr(d.ast, "_parent", None)
+        while p is not None and not isinstance(p, (ast.FunctionDef, ast.ExceptHandler)):
+            if isinstance(p, ast.If) and pick(F, p.test, st) is None:
+                atoms = [p.test]
+                while atoms:
+                    t = atoms.pop()
+                    if isinstance(t, ast.BoolOp):
+                        atoms.extend(t.values)
+                    elif isinstance(t, ast.UnaryOp) and isinstance(t.op, ast.Not):
+                        atoms.append(t.operand)
+                    elif pick(F, t, st) is None:
+                        names = {n.id for n in ast.walk(t) if isinstance(n, ast.Name)}
+                        if not all(n in params and n not in assigned or n[:1].isupper() for n in names) or \
+                                any(isinstance(n, (ast.Call, ast.Await, ast.Yield, ast.YieldFrom)) for n in ast.walk(t)):
+                            return False
+            child, p = p, getattr(p, "_parent", None)
+    return True
+
+
 def feasible(F, stmt, st):
     """Is the definition statement `stmt` consistent with abstract state st?  (it sits under
     if-tests on the depleted flag that the state decides; the flag does not change between the
@@ -221,6 +249,13 @@ def pick(F, test, st):
         test = test.operand
     if F.roles.depleted_var is not None and isinstance(test, ast.Name) and test.id == F.roles.depleted_var:
         return D != neg
+    if isinstance(test, ast.BoolOp):
+        vals = [pick(F, v, st) for v in test.values]
+        if isinstance(test.op, ast.And):
+            r = False if any(v is False for v in vals) else True if all(v is True for v in vals) else None
+        else:
+            r = True if any(v is True for v in vals) else False if all(v is False for v in vals) else None
+        return None if r is None else (r != neg)
     if isinstance(test, ast.Compare) and len(test.ops) == 1 and isinstance(test.ops[0], (ast.Is, ast.IsNot)) \
             and isinstance(test.comparators[0], ast.Constant) and test.comparators[0].value is None:
         if isinstance(test.ops[0], ast.IsNot):
@@ -255,9 +290,13 @@ def check(run, project):
             items = attach_items(F, node, st, expr)
             want = [("byte",), ("iter",)] if st[0] == "FRESH" else [("iter",)]
             empty_ok = st[1] and st[0] != "FRESH"  # source exhausted, nothing held: b"" is the same thing
-            ok = items == want or (empty_ok and items == [])
+            alts = [list(a) for a in items[0][1]] if len(items) == 1 and items[0][0] == "alt" else [items]
+            if any(x and x[0] == "alt" for a in alts for x in a):
+                raise AnalysisError(f"C13: nested alternatives in the bytes attached at line {node.lineno}")
+            wrong = [a for a in alts if not (a == want or (empty_ok and a == []))]
+            ok = not wrong
             run.ob("A1", ok, f"attach at L{node.lineno} in state byte={st[0]} depleted={st[1]}",
-                   "", module=mod, node=node) if ok else bad.append((st, items))
+                   "", module=mod, node=node) if ok else bad.append((st, wrong[0]))
         if bad:
             desc = "; ".join(f"state(byte={s[0]}, depleted={s[1]}) attaches {fmt(i)}" for s, i in bad)
             kinds = sorted({"stale" if any(x == ("byte",) for x in i) else "dropped" for s, i in bad})
